@@ -190,7 +190,19 @@ def cases(draw, qmax=30, qset=None):
     forms = []
     nforms = draw(st.integers(2, 6))
     for _ in range(nforms):
-        kind = draw(st.sampled_from(["single", "single", "multi", "multi", "qelement", "cquad", "nometa"]))
+        kind = draw(st.sampled_from(["single", "single", "multi", "multi", "qelement", "cquad", "nometa", "qmix"]))
+        if kind == "qmix":
+            # one subdomain holding an integral whose rule is defined by a quadrature element next to integrals with their own metadata
+            terms = []
+            for _k in range(draw(st.integers(1, 2))):
+                scheme = draw(st.sampled_from([s_ for s_ in SCHEMES[cell] if s_ != "vertex"]))
+                q = draw(st.sampled_from([1, 2, 3, 5, 8]))
+                over = draw(st.sampled_from([0, 0, -1, 1, 2]))
+                terms.append({"alpha": draw(exponents(tdim, max(0, q + over))), "q": q, "scheme": scheme})
+            forms.append({"kind": kind, "terms": terms, "qe": draw(st.sampled_from([0, 1, 2, 4])), "custom": draw(st.booleans()), "npts": draw(st.integers(1, 3)),
+                          "alpha": draw(exponents(tdim, draw(st.integers(0, 3)))), "vals_seed": draw(st.integers(0, 10**6)),
+                          "q_position": draw(st.integers(0, len(terms))), "q_shape": draw(st.sampled_from(["f*m", "m*f", "f*f*m"]))})
+            continue
         if kind in ("single", "multi"):
             terms = []
             for _k in range(1 if kind == "single" else draw(st.integers(2, 3))):
@@ -245,6 +257,23 @@ def form_spec(cell, f):
             if t["scheme"] != "default":
                 md["quadrature_rule"] = t["scheme"]
             base["integrals"].append({"m": "dx", "id": None, "md": md, "e": mono_tree(t["alpha"])})
+    elif f["kind"] == "qmix":
+        if f["custom"]:
+            pts, w = interior_points(cell, f["npts"], f["vals_seed"])
+            base["elements"] = [["cquad", pts.tolist(), w.tolist(), []]]
+        else:
+            base["elements"] = [["quad", f["qe"], "default", []]]
+        base["coefs"] = [0]
+        m = mono_tree(f["alpha"])
+        qe = {"f*m": ["mul", ["f", 0], m], "m*f": ["mul", m, ["f", 0]], "f*f*m": ["mul", ["mul", ["f", 0], ["f", 0]], m]}[f["q_shape"]]
+        ints = []
+        for t in f["terms"]:
+            md = {"quadrature_degree": int(t["q"])}
+            if t["scheme"] != "default":
+                md["quadrature_rule"] = t["scheme"]
+            ints.append({"m": "dx", "id": None, "md": md, "e": mono_tree(t["alpha"])})
+        ints.insert(f["q_position"], {"m": "dx", "id": None, "md": {}, "e": qe})
+        base["integrals"] = ints
     elif f["kind"] == "qelement":
         base["elements"] = [["quad", f["qe"], "default", []]]
         base["coefs"] = [0]
@@ -332,6 +361,22 @@ def evaluate_case(case, wd):
                 classes.append("multi-rule")
             if all_exact:
                 exact = float(exact_tot)
+        elif f["kind"] == "qmix":
+            el = b.elements[0]
+            Xq, wq = (np.asarray(a) for a in el.custom_quadrature())
+            rng = np.random.default_rng([f["vals_seed"], 3])
+            w = inputs.f32(rng.uniform(-2, 2, size=len(wq)))
+            fv = w * w if f["q_shape"] == "f*f*m" else w
+            vals = mono_values(Xq, Am, bv, f["alpha"]) * fv
+            expected = float(np.sum(wq * vals) * detA)
+            scale = float(np.sum(np.abs(wq * vals)) * detA)
+            for t in f["terms"]:  # each further integral with its own rule
+                Xt, wt = own_rule(cell, t["q"], t["scheme"])
+                vt = mono_values(Xt, Am, bv, t["alpha"])
+                expected += float(np.sum(wt * vt) * detA)
+                scale += float(np.sum(np.abs(wt * vt)) * detA)
+            nontrivial = True
+            classes.append("quadrature-element-next-to-own-rules")
         elif f["kind"] in ("qelement", "cquad"):
             el = b.elements[0]
             Xq, wq = el.custom_quadrature()
